@@ -342,6 +342,16 @@ func checkSerialisation(p *Prog, r *Report, fill *ssa.Function) {
 		if b, isB := constBool(fl); hasFL && isB && b {
 			fixed = true
 		}
+		if hasFL && !fixed {
+			// FixLengths: ip.Length == 0 / f.length == 0 written as an expression
+			if bo, isB := s.Resolve(fl).(*ssa.BinOp); isB && bo.Op == token.EQL {
+				if k, isC := constInt(bo.Y); isC && k == 0 {
+					if _, fld, isF := fieldLoad(s.Resolve(bo.X)); isF && (fld == "Length" || fld == "length") {
+						fixed = true
+					}
+				}
+			}
+		}
 		if !fixed {
 			// allowed only when the header's Length is known non-zero on this path and is the filler's override
 			okOverride := false
